@@ -110,6 +110,10 @@ def cvc5_check(q, timeout_s=120):
 
 
 def model_int(model, term):
+    if hasattr(term, 'v') and not hasattr(term, 'as_ast'):
+        return term.v
+    if isinstance(term, (int, bool)):
+        return int(term)
     v = model.eval(term, model_completion=True)
     if z3.is_bv_value(v):
         return v.as_long()
